@@ -314,7 +314,7 @@ Lemma repetition_filter_incl : forall g ms, incl (repetition_filter g ms) ms.
 Proof.
   intros g ms. unfold repetition_filter.
   destruct (g_moves g) as [|m1 [|m2 [|m3 [|m4 [|m5 t]]]]]; try apply incl_refl.
-  destruct (move_eqb m1 m5); [apply swap_remove_move_incl | apply incl_refl].
+  destruct (move_eqb m1 m5 && is_reversal m4 m2 && is_reversal m5 m3); [apply swap_remove_move_incl | apply incl_refl].
 Qed.
 
 (* ---- the generic invariant principle ---------------------------------------------------------- *)
